@@ -208,6 +208,73 @@ def worker_processes(chk: core.Check, thorough: bool):
                 return
 
 
+ENV_CHILD = r"""
+import sys, json, os, warnings
+warnings.filterwarnings("ignore")
+when, var, val, path = sys.argv[1:5]
+names = sys.argv[5:]
+if when == "before-import":
+    os.environ[var] = val
+import awkward as ak, uproot, pybes3
+if when == "after-import":
+    os.environ[var] = val
+def canon(x):
+    if isinstance(x, float): return "nan" if x != x else x
+    if isinstance(x, list): return [canon(v) for v in x]
+    if isinstance(x, dict): return {k: canon(v) for k, v in x.items()}
+    return x
+out = []
+for name in names:
+    short = name.split("/")[-1]
+    rec = {"branch": name, "bad": None}
+    try:
+        eager = uproot.open(path)["Event"][name].array()
+        col = uproot.dask({path: "Event/" + name}, steps_per_file=2)[short]
+        ann = str(ak.types.ArrayType(col._meta.type.content if hasattr(col._meta.type, "content") else col._meta.type, len(eager)))
+        comp = col.compute()
+        if str(comp.type) != str(eager.type) or ann != str(eager.type):
+            rec["bad"] = {"announced": ann[:300], "computed_type": str(comp.type)[:300]}; rec["want"] = str(eager.type)[:300]
+        elif canon(ak.to_list(comp)) != canon(ak.to_list(eager)):
+            rec["bad"] = "values differ"; rec["want"] = "the eager values"
+    except Exception as ex:
+        rec["bad"] = f"{type(ex).__name__}: {str(ex)[:300]}"
+    out.append(rec)
+print(json.dumps(out))
+"""
+
+
+def environment_switches(chk: core.Check):
+    """every environment variable the package source reads, set to a value other than its default before the import and - as notebooks and job
+    scripts do - after it: lazy and eager must still agree (each side may read its configuration at a different moment)"""
+    import os
+    import subprocess
+    from checks import c06
+    envs = c06.scan_env_reads()
+    chk.coverage["environment_variables_read_by_the_package"] = {k: {"default": v[0], "file": v[1]} for k, v in envs.items()}
+    p = core.REPO / "tests" / "data" / "test_full_mc_evt_1.rtraw"
+    if not p.exists():
+        return
+    names = ["TDigiEvent/m_mdcDigiCol", "TDigiEvent/m_mucDigiCol", "TMcEvent/m_mcParticleCol"]
+    for var, (default, where) in envs.items():
+        for val in c06.perturbations(default)[:2]:
+            for when in ("after-import", "before-import"):
+                env = dict(os.environ)
+                for k in envs:
+                    env.pop(k, None)
+                r = subprocess.run([core.PY, "-c", ENV_CHILD, when, var, val, str(p)] + names, capture_output=True, text=True, timeout=900, env=env)
+                lines = [l for l in r.stdout.splitlines() if l.startswith("[")]
+                if not lines:
+                    chk.obligation_broken("correspondence", "environment-switch child", (r.stderr or r.stdout)[-600:])
+                    return
+                for rec in json.loads(lines[-1]):
+                    chk.count(1, key=f"env-{var}={val}-{when}-{rec['branch']}")
+                    chk.hist("environment_switch", f"{var} {when}")
+                    if rec["bad"]:
+                        chk.failing_input(f"lazy vs eager read with {var}={val} set {when.replace('-', ' ')} ({where})", {"file": p.name, "branch": rec["branch"], "environment": {var: val}, "set": when, "steps_per_file": 2},
+                                          rec["bad"], rec.get("want"), "the array obtained lazily and then computed has the same type and values as the eager one; the announced type equals the computed type")
+                        return
+
+
 def forms_vs_contents(chk: core.Check):
     """pybes3's factories: make_awkward_form mirrors make_awkward_content"""
     import awkward as ak
@@ -289,6 +356,8 @@ def main(chk: core.Check) -> int:
         digi_fields = lazy_vs_eager(chk, thorough) or []
         if not [f for f in chk.failing if not f.get("finding_key")]:
             worker_processes(chk, thorough)
+        if not [f for f in chk.failing if not f.get("finding_key")]:
+            environment_switches(chk)
         forms_vs_contents(chk)
         model_digi(chk, digi_fields)
         chk.coverage["traces_validated_against_impl"] = chk.evals
